@@ -55,6 +55,9 @@ CLAIMS["C14"] = ("explicit-state enumeration of event histories on the real obje
 CLAIMS["C15"] = ("explicit-state enumeration of event histories on the real objects + delay-bounded schedule enumeration with a linearisation check",
     "Every history over {input i finishes, cancel output, stop} for every assignment of {value, exception, cancelled, never} to 0-3 inputs (4 in thorough) of f_zip / f_sequence / f_traverse, duplicate inputs, sizes 15-25 and 50 in both completion orders with a failing input at first/middle/last position, and f_traverse with a raising fn, is executed and compared step by step with a positional reference (tuple / list type, first failure, cancellation, cancel fan-out, fn called once per element in order). Concurrent completions are explored to d<=2 at line granularity of zip.py with a linearisation check.",
     "DESIGN.md section 6 C15")
+CLAIMS["C16"] = ("explicit enumeration of arities x completion orders x failing positions on the real code (environment choices free), plus delay-bounded schedule enumeration for concurrent completions",
+    "0-3 positional (4 thorough) x keyword sets including names that collide with the implementation's own identifiers (x, fn, key, args, kwargs): every completion permutation of the function future and argument futures, pre-resolved inputs, a failing input at each position and a raising fn are executed; oracle: exactly one call, only after all inputs resolved, positional order, keyword mapping, output = return value / the failing input's or fn's exception. Concurrent resolution by one thread per input to d<=1 (2 thorough) at line granularity.",
+    "DESIGN.md section 6 C16")
 NOT_YET = {}
 
 props = [json.loads(l) for l in open(os.path.join(HERE, "properties.jsonl"))]
